@@ -602,7 +602,7 @@ pub fn c08(rep: &mut Report) {
 
 pub fn c07(rep: &mut Report) {
     let thorough = rep.thorough();
-    let n = if thorough { 10 } else { 7 };
+    let n = if thorough { 12 } else { 9 };
     // three layouts of n unique chunks: contiguous, with gaps, permuted (descriptor order != file order)
     let sizes: Vec<usize> = (0..n).map(|i| 2 + (i * 3) % 5).collect();
     let mut layouts: Vec<(String, Vec<(u64, usize)>)> = vec![];
@@ -631,7 +631,21 @@ pub fn c07(rep: &mut Report) {
             let mask = case % (1usize << n);
             // the subset of descriptors left to fetch, in descriptor order (as chunk_stream builds it)
             let ranges: Vec<(u64, usize)> = descs.iter().enumerate().filter(|(i, _)| mask >> i & 1 == 1).map(|(_, r)| *r).collect();
-            lab.server.arm(file_ref, Script { faults: vec![], splits: vec![], keep_alive: case % 2 == 0 });
+            // body fragmentation (no failures): for the contiguous layout every other subset is served
+            // with the body flushed at every chunk boundary of its runs, or one byte past each boundary
+            let mut splits: Vec<usize> = vec![];
+            if lname == "contiguous" && mask % 2 == 1 {
+                for r in runs_of(&ranges) {
+                    let mut rel = 0usize;
+                    for &(o, s) in ranges.iter().filter(|(o, _)| *o >= r.0 && *o < r.1) {
+                        let _ = o;
+                        rel += s;
+                        splits.push(if mask % 4 == 1 { rel } else { rel + 1 });
+                    }
+                }
+                agg.add("subsets_with_fragmented_bodies", 1);
+            }
+            lab.server.arm(file_ref, Script { faults: vec![], splits, keep_alive: case % 2 == 0 });
             lab.pooled.set(case % 2 == 0);
             let items = lab.read_chunks(&ranges, 0);
             let log = lab.server.log();
@@ -664,7 +678,7 @@ pub fn c07(rep: &mut Report) {
     rep.set("evaluations", json!(rep.agg.get("subsets")));
     rep.set("distinct_nontrivial", json!(rep.agg.distinct_count("request_patterns")));
     rep.set("exhaustive", json!(true));
-    rep.set("rule", json!("every subset (2^n) of the descriptors of three archive layouts (contiguous; with gaps; descriptor order != file order) is requested through the real HttpReader::read_chunks in descriptor order against a logging loopback server, with and without keep-alive; oracle: logged Range sequence == maximal runs of list- and offset-adjacent missing chunks with inclusive bounds first.offset .. last.end-1; non-trivial = distinct expected request patterns"));
+    rep.set("rule", json!("every subset (2^n) of the descriptors of three archive layouts (contiguous; with gaps; descriptor order != file order) is requested through the real HttpReader::read_chunks in descriptor order against a logging loopback server, with and without keep-alive, half of the contiguous layout's subsets with the response bodies flushed at (or one byte past) every chunk boundary; oracle: logged Range sequence == maximal runs of list- and offset-adjacent missing chunks with inclusive bounds first.offset .. last.end-1; non-trivial = distinct expected request patterns"));
     rep.assume("in the absence of transfer failures (C08 covers those); the library-level subset is induced directly through read_chunks exactly as Archive::chunk_stream builds it; the CLI leg induces subsets through seeds");
 }
 
